@@ -122,20 +122,34 @@ def run(ctx):
     if iis:
         trues = {b for b, bb in enumerate(iis.bbs) for st in bb["s"] if st["k"] == "a" and st["d"] == [0, []] and st["r"]["k"] == "use" and vf.const_of_operand(iis, st["r"]["o"]) == "1"}
         direct = [b for b, bb in enumerate(iis.bbs) for st in bb["s"] if st["k"] == "a" and st["d"] == [0, []] and not (st["r"]["k"] == "use" and vf.const_of_operand(iis, st["r"]["o"]) in ("0", "1"))]
+        idx = [tt for _bb, tt in iis.calls() if (tt.get("f") or "").endswith("Index::index") and vf.const_of_operand(iis, tt["a"][1]) == '"method"']
+
+        def is_lit(o):
+            """the operand is the literal "init_secure_api" or Some("init_secure_api")"""
+            if vf.const_of_operand(iis, o) == '"init_secure_api"':
+                return True
+            pr = vf.producers(iis, o)
+            if ("const", '"init_secure_api"') in pr and not any(x[0] in ("call", "arg") for x in pr):
+                return True
+            return False
+
         eqs = []
         for b, t in iis.calls():
             if (t.get("f") or "").endswith("PartialEq::eq") and len(t["a"]) == 2:
-                cs = [vf.const_of_operand(iis, a) for a in t["a"]]
-                if '"init_secure_api"' in cs:
-                    other = t["a"][0] if cs[1] == '"init_secure_api"' else t["a"][1]
-                    po = vf.producers(iis, other) | vf.origins(iis, other)
-                    idx = [tt for _bb, tt in iis.calls() if (tt.get("f") or "").endswith("Index::index") and vf.const_of_operand(iis, tt["a"][1]) == '"method"']
-                    if vf.has_call(po, "serde_json::value::Value::as_str") and idx:
-                        eqs.append(b)
-        held = len(eqs) == 1 and bool(trues) and not direct
+                for lit, other in ((t["a"][1], t["a"][0]), (t["a"][0], t["a"][1])):
+                    if is_lit(lit):
+                        po = vf.producers(iis, other) | vf.origins(iis, other)
+                        if vf.has_call(po, "serde_json::value::Value::as_str") and idx:
+                            eqs.append((b, t))
+        held = len(eqs) == 1
         if held:
-            g_ = cfg.call_guard(iis, eqs[0])
-            held = bool(g_.ok) and cfg.must_pass(iis, g_.ok, trues)[0]
+            b, t = eqs[0]
+            if t["d"] == [0, []] and not trues:
+                # `a == b` returned directly: the result *is* the equality
+                held = len(direct) == 0 and len(list(iis.calls())) == 3
+            else:
+                g_ = cfg.call_guard(iis, b)
+                held = bool(trues) and not direct and bool(g_.ok) and cfg.must_pass(iis, g_.ok, trues)[0]
         run.instance(R1, {"fn": "is_init_secure_api", "obligation": "true only when request[\"method\"] == \"init_secure_api\""}, held=held)
         if not held:
             run.finding(Finding(R1, iis.id, "is_init_secure_api accepts something other than method == \"init_secure_api\" (a plaintext request could bypass decryption)", site=iis.loc()))
